@@ -83,13 +83,13 @@ CLAIMED = {
         ref='DESIGN.md section 4 C18'),
     "C13": dict(
         technique="Coq proof over an executable model of walk_tree/_traverse_tree/printer + model/implementation correspondence",
-        text=("coq/props/C13.v (15 theorems): TOTALITY ON DUMPS (first clause) as a theorem on the C05 fragment: for every value in c05_guard (containers, dict family, slices, names, arrays, sparse, dtype, masked, RNGs, partial, bytes / bytearray, rank-1 object arrays; arbitrary sharing), every load environment of that archive, EVERY trusted list and ALL THREE show modes, the row generator and the default sink complete (C13_total_on_dumps_partial; D24 repaired in /repo: _traverse_tree skips everything below a hidden node); what is printed is the root row followed by the pre-order forest of rows with the subtree of every hidden row cut off: show=all everything, show=untrusted exactly the rows that are not fully safe, show=trusted the rows whose own type is trusted and whose ancestors below the root all are (proof: the tree built from a dumped state is ranked -- every object above its parts -- hence acyclic with bounded reference depth, every reference resolves, the audit of every node completes independently of fuel and call stack, the walk yields a safe-closed pre-order forest). MODE-INDEPENDENT WELL-FORMEDNESS: on EVERY pre-order row stream (each row at most one level below its predecessor) and every filter, _traverse_tree never raises its level-difference ValueError and prints again such a stream (C13_preorder_never_raises); on ANY row list a completed run printed exactly `shown` of the rows (C13_filter_respected); on a forest that is the forest with hidden subtrees pruned, a row is printed iff the filter admits it and all its ancestors (C13_hidden_subtrees_cut). AGREEMENT WITH THE AUDIT: whenever visualize completes (any archive, any trusted list, any show mode) what reaches the printer is the root row followed by rows each at most one level "
+        text=("coq/props/C13.v (15 theorems): TOTALITY ON DUMPS (first clause) as a theorem on the C05 fragment: for every value in c05_guard (containers, dict family, slices, names, arrays, sparse, dtype, masked, RNGs, partial, bytes / bytearray, object arrays of every rank; arbitrary sharing), every load environment of that archive, EVERY trusted list and ALL THREE show modes, the row generator and the default sink complete (C13_total_on_dumps_partial; D24 repaired in /repo: _traverse_tree skips everything below a hidden node); what is printed is the root row followed by the pre-order forest of rows with the subtree of every hidden row cut off: show=all everything, show=untrusted exactly the rows that are not fully safe, show=trusted the rows whose own type is trusted and whose ancestors below the root all are (proof: the tree built from a dumped state is ranked -- every object above its parts -- hence acyclic with bounded reference depth, every reference resolves, the audit of every node completes independently of fuel and call stack, the walk yields a safe-closed pre-order forest). MODE-INDEPENDENT WELL-FORMEDNESS: on EVERY pre-order row stream (each row at most one level below its predecessor) and every filter, _traverse_tree never raises its level-difference ValueError and prints again such a stream (C13_preorder_never_raises); on ANY row list a completed run printed exactly `shown` of the rows (C13_filter_respected); on a forest that is the forest with hidden subtrees pruned, a row is printed iff the filter admits it and all its ancestors (C13_hidden_subtrees_cut). AGREEMENT WITH THE AUDIT: whenever visualize completes (any archive, any trusted list, any show mode) what reaches the printer is the root row followed by rows each at most one level "
               "deeper than the previous one; every row carries the audit's own verdicts for its node (is_self_safe, and fully-safe iff the graph audit "
               "below it reports nothing); the root row is fully safe iff get_untrusted_types is empty for that trust setting; a row is tagged [UNSAFE] iff its own type is untrusted; "
               "a node of any kind except the protocol-0 FunctionNode that is not self-safe is never fully safe (C13_self_unsafe_not_safe); the former D31-SliceNode witness is reported (C13_slice_name_reported: get_untrusted_types = [x.y], load refuses, row and ancestors not fully safe); the former D24 witness ([functools.partial(np.add, 1)], show=trusted) is computed to completion (C13_trusted_witness_repaired). The model (lazy row stream, hidden_level state, key_types special case, SKIPPED kinds from the snapshot, Ref/cycle unrolling, the plain-text printer) "
               "is compared with /repo on generated valid+malformed archives x trusted x show (printed text and raw rows); an oracle on the implementation's own output requires that a completed pre-order row stream never makes the default sink raise and that the printed lines are the rows admitted together with all their ancestors. Totality on real dumps is checked on generated values x 3 trust settings x 3 show modes (all nine required), visualized before and whatever load says."),
         note=("Trusted: Coq kernel; snapshot (SKIPPED_TYPES); generator, runner. rich is absent here: colours not exercised. Open findings: "
-              "D31-FunctionNode@0 (the protocol-0 FunctionNode displays a name its audit ignores), C13-F1 (rank-0 object arrays are dumped with a non-list content: visualize / get_untrusted_types / load raise AttributeError). D15 (slices, bound methods, state-less objects), D15c (key named key_types), D32 (untrusted key types), D31-SliceNode and D24 (show='trusted' level jump) were repaired in /repo."),
+              "D31-FunctionNode@0 (the protocol-0 FunctionNode displays a name its audit ignores). D15 (slices, bound methods, state-less objects), D15c (key named key_types), D32 (untrusted key types), D31-SliceNode, D24 (show='trusted' level jump) and C13-F1 (rank-0 object arrays were dumped with a non-list content: visualize / get_untrusted_types / load raised AttributeError) were repaired in /repo."),
         ref="DESIGN.md section 4 C13"),
     "C01": dict(
         technique="Coq proof (audit examines every node; every archive-named resolution is vouched) + traced-load correspondence + canary search",
@@ -129,18 +129,18 @@ CLAIMED = {
         ref="DESIGN.md section 4 C20"),
     "C04": dict(
         technique="Coq model of the codec (pval, get_state, construct_val): faithful-or-refuses theorem on the C05 fragment, refusal theorems (same-spelling keys, unsupported values), one refuted theorem per remaining corruption class + schema/value correspondence",
-        text=("coq/props/C04.v (15 theorems) over an executable Gallina model of every *_get_state function and every _construct (PyVal/CodecDump/CodecLoad, reusing the get_tree model): "
-              "C04_faithful_or_refuses_partial is a theorem on the C05 fragment (scalars, nested list/tuple/set, dict family, slices, names, operator getters, arrays, sparse, dtype, masked, RNGs, partial, bytes/bytearray, rank-1 object arrays; arbitrary sharing) under the decidable guard c04_ok "
+        text=("coq/props/C04.v (14 theorems) over an executable Gallina model of every *_get_state function and every _construct (PyVal/CodecDump/CodecLoad, reusing the get_tree model): "
+              "C04_faithful_or_refuses_partial is a theorem on the C05 fragment (scalars, nested list/tuple/set, dict family, slices, names, operator getters, arrays, sparse, dtype, masked, RNGs, partial, bytes/bytearray, object arrays of EVERY rank and shape with cells of any kind in the fragment; arbitrary sharing) under the decidable guard c04_ok "
               "(tuple, defaultdict and bytes subclasses keep their class: C04-F2/F3/F5 repaired); REFUSALS: C04_same_spelling_refused -- any dict or defaultdict with two kept keys of one JSON spelling, anywhere inside a value, makes dumps raise (induction over entries and position; "
               "C04_same_spelling_order: earlier values' exceptions win, later values are not serialised, property-valued entries are skipped first: D08 repaired in /repo), C04_unsupported_refused; one refuted theorem (vm_compute witness) per remaining corruption class = open findings "
-              "D09 (frozenset/deque payload), D10 (rank>=2 object arrays), D26 (property values), C04-F1, F4 (scalar subclasses, surrogate pairs); C04_dump_pure holds by type. Beyond the fragment (user classes, object arrays of other ranks) correspondence-only: the model's normalised schema AND its "
+              "D09 (frozenset/deque payload), D26 (property values), C04-F1, F4 (scalar subclasses, surrogate pairs); D10 is repaired in /repo: the former witness (a (2,2) array of lists) and seven further shapes (rank 0, zero-length axes, arrays of arrays) round-trip exactly (Example C04_objarray_fixed); C04_dump_pure holds by type. Beyond the fragment (user classes) correspondence-only: the model's normalised schema AND its "
               "predicted loaded value -- including the predicted corruption, refusal or exception class -- are compared with /repo on >= 350 generated values per run, and c04_ok => faithful-or-refuses is evaluated per case; dump purity by fingerprint before/after."),
         note=("Trusted: harness/pval_emit.py (object -> pval term), absval/canon (self-tested each run), numpy/scipy/json float codecs as opaque tokens, zipfile. D07 (bool keys), D08 (same-spelling keys), D25 (defaultdict keys), C04-F2 (defaultdict subclasses), "
-              "C04-F3 (tuple subclasses) and C04-F5 (bytes / bytearray subclasses, numpy.bytes_) repaired in /repo."),
+              "C04-F3 (tuple subclasses), C04-F5 (bytes / bytearray subclasses, numpy.bytes_) and D10 (object arrays of rank 0 / >= 2 lost their shape) repaired in /repo."),
         ref="DESIGN.md section 4 C04"),
     "C05": dict(
-        technique='Coq round-trip theorem at the real entry points (containers, dict family, arrays, sparse, dtype, masked, RNGs, partial, bytes/bytearray, rank-1 object arrays; arbitrary sharing) + per-case vm_compute of the model round trip + implementation cycles',
-        text=("coq/props/C05.v: C05_roundtrip_partial -- for every value in the fragment `c05_guard` (JSON scalars surviving the text codec; nested list/tuple/set; dict / OrderedDict / defaultdict with str/int/float/numpy-number keys without JSON-spelling collisions, including the key_types lists; slices; function and type names; attrgetter/itemgetter; numpy arrays and numpy scalars (opaque token in an <id>.npy member), scipy sparse matrices (<id>.npz), dtypes, masked arrays, RandomState, Generator, functools.partial, bytes / bytearray and their subclasses (uuid-named members: a shared bytes object is written once per occurrence and still loads as ONE object), rank-1 object arrays of any length with cells in the fragment) with ANY sharing of sub-objects (a DAG; premise: one label denotes one object; a shared array is written once and referenced from every occurrence), roundtrip = loads_model (dumps_model v) = Ok v, i.e. the same value with the same identity labels and sharing; proved through the memo first-occurrence invariant for trees get_tree builds from states get_state emits, at the root entry points incl. the protocol/_skops_version fields; C05_stable_partial for k cycles; totality of dumps on the fragment. Still outside the theorem (correspondence-only): object arrays of rank 0 and rank >= 2 (rank >= 2 with sequence cells is finding D10), scipy sparse arrays (object path), user-class instances. Full grammar: per generated value `supported v` and 'model loads(dumps(v)) has the abstraction of v' are evaluated by vm_compute, and the model's schema/value are compared with /repo; k-fold dump/load cycles and RNG stream continuation run on the implementation."),
+        technique='Coq round-trip theorem at the real entry points (containers, dict family, arrays, sparse, dtype, masked, RNGs, partial, bytes/bytearray, object arrays of every rank; arbitrary sharing) + per-case vm_compute of the model round trip + implementation cycles',
+        text=("coq/props/C05.v: C05_roundtrip_partial -- for every value in the fragment `c05_guard` (JSON scalars surviving the text codec; nested list/tuple/set; dict / OrderedDict / defaultdict with str/int/float/numpy-number keys without JSON-spelling collisions, including the key_types lists; slices; function and type names; attrgetter/itemgetter; numpy arrays and numpy scalars (opaque token in an <id>.npy member), scipy sparse matrices (<id>.npz), dtypes, masked arrays, RandomState, Generator, functools.partial, bytes / bytearray and their subclasses (uuid-named members: a shared bytes object is written once per occurrence and still loads as ONE object), object arrays of EVERY rank (0 included) and every shape whose product is the number of cells, zero-length axes included, with cells anywhere in the fragment: the nested lists tolist() creates get allocator labels, one ListNode per further axis, the shape tuple or the empty-tuple singleton, and the loader's cell-by-cell fill driven by the stored shape (D10 / C13-F1 repaired in /repo)) with ANY sharing of sub-objects (a DAG; premise: one label denotes one object; a shared array is written once and referenced from every occurrence), roundtrip = loads_model (dumps_model v) = Ok v, i.e. the same value with the same identity labels and sharing; proved through the memo first-occurrence invariant for trees get_tree builds from states get_state emits, at the root entry points incl. the protocol/_skops_version fields; C05_stable_partial for k cycles; totality of dumps on the fragment. Still outside the theorem (correspondence-only): user-class instances other than scipy sparse arrays (which take the object path and ARE inside). Full grammar: per generated value `supported v` and 'model loads(dumps(v)) has the abstraction of v' are evaluated by vm_compute, and the model's schema/value are compared with /repo; k-fold dump/load cycles and RNG stream continuation run on the implementation."),
         note=('Trusted: harness/pval_emit.py (object -> pval term), absval/canon (self-tested each run); floats identified with their repr text; numpy/scipy codecs opaque tokens.'),
         ref="DESIGN.md section 4 C05 / section 10"),
     "C06": dict(
@@ -161,8 +161,8 @@ CLAIMED = {
         ref="DESIGN.md section 4 C07"),
     "C12": dict(
         technique='Coq proofs: schema well-formedness, flat member names, members = file references (induction over the dump model); sink/compression independence as a theorem over the file-operation model with the zip container as read-back oracle, composed with the round trip; archive/sink/compression checks on the implementation',
-        text=("coq/props/C12.v: C12_schema_wf (induction over pval, guard no_rank0: root carries protocol and version; every loader-child state has __loader__ in the model's loader set, __class__, __module__, __id__), C12_flat_names for every value (each member name is flat and of the shape <id>.npy / <id>.npz / u<n>.bin / schema.json; uses injectivity of the decimal rendering of ids), C12_members_exact_partial (members written = file references of the schema for EVERY value that dumps, guard no_rank0 only: colliding and non-JSON keys are refusals; induction over all kinds) with C12_colliding_keys_refused (the former C12-F1 witness), C12_loader_registered (per run), C12_sink_compression_independent (for EVERY value that dumps, every target -- dumps' return value, a path, an open binary file -- and every compression method/level the bytes that reach the target are the one complete buffer and unzip to the same archive; coq/sys/SinkFacts.v over Dump.v), C12_any_sink_loads_equal_partial (composition with C05: that archive loads to the dumped value on the fragment), C12_failing_dump_delivers_nothing. On the implementation: namelist (as a multiset) vs schema file refs, name regexes, and a 4 sinks x 8 compression configs product (incl. members of several hundred kB that compress 1000:1) compared after id/uuid normalisation and loaded back."),
-        note=('Trusted: zipfile (container, codecs) = the read-back oracle hypothesis of the sink theorems; harness normaliser. C12-F1 repaired in /repo (with D08).'),
+        text=("coq/props/C12.v: C12_schema_wf (induction over pval, EVERY value that dumps -- the guard no_rank0 is gone with the repair of C13-F1: the content of an object array is a list of node states for every rank; root carries protocol and version; every loader-child state has __loader__ in the model's loader set, __class__, __module__, __id__), C12_flat_names for every value (each member name is flat and of the shape <id>.npy / <id>.npz / u<n>.bin / schema.json; uses injectivity of the decimal rendering of ids), C12_members_exact (the FULL statement: members written = file references of the schema for EVERY value that dumps, no guard left: colliding and non-JSON keys are refusals; induction over all kinds) with C12_colliding_keys_refused (the former C12-F1 witness), C12_loader_registered (per run), C12_sink_compression_independent (for EVERY value that dumps, every target -- dumps' return value, a path, an open binary file -- and every compression method/level the bytes that reach the target are the one complete buffer and unzip to the same archive; coq/sys/SinkFacts.v over Dump.v), C12_any_sink_loads_equal_partial (composition with C05: that archive loads to the dumped value on the fragment), C12_failing_dump_delivers_nothing. On the implementation: namelist (as a multiset) vs schema file refs, name regexes, and a 4 sinks x 8 compression configs product (incl. members of several hundred kB that compress 1000:1) compared after id/uuid normalisation and loaded back; fixed witnesses whose dump fails after members were written (no archive may exist), objects whose state is a temporary, and loaded = dumped value for the witnesses."),
+        note=('Trusted: zipfile (container, codecs) = the read-back oracle hypothesis of the sink theorems; harness normaliser. C12-F1 (with D08) and the rank-0 object array layout (C13-F1) repaired in /repo.'),
         ref="DESIGN.md section 4 C12"),
 }
 
